@@ -9,6 +9,7 @@ CONSTANTS
   BodyMode = "len"
   StyleMode = "all"
   PhraseMode = "reg"
+  ManyMode = "none"
   MaxBig = 9
 INIT MCInit
 NEXT Next
